@@ -58,7 +58,9 @@ def attempts_strategy(draw):
         elif kind == 'seat taken':
             inv.append({'seat': seat, 'team': draw(st.sampled_from([teams[seat % 2], other])), 'version': 18, 'kind': kind})
         else:
-            inv.append({'seat': seat, 'team': draw(st.sampled_from([other, teams[1 - seat % 2]])), 'version': 18, 'kind': kind})
+            # another team, the opponents' team, or the partner's own team in different letter case (team names are compared exactly)
+            swapped = teams[seat % 2].swapcase()
+            inv.append({'seat': seat, 'team': draw(st.sampled_from([other, teams[1 - seat % 2]] + ([swapped, swapped] if swapped != teams[seat % 2] else []))), 'version': 18, 'kind': kind})
     # interleave: positions of invalid attempts among the valid ones, keeping dependencies satisfiable in list order:
     # a 'seat taken' / 'team mismatch' attempt is placed after the valid request it refers to; the last element is valid
     order = list(valid)
